@@ -481,11 +481,37 @@ Parent(b) == CASE b \in {"tfhd", "tfdt", "trun", "sbgp", "subs", "saio", "saiz",
                [] OTHER -> "udta"
 \* shape instances: every version x every subset of the defined flag bits x every count x header form x nesting;
 \* value instances: one field at a time at a boundary value, for no flag / every flag / each single flag
+\* child ORDER of moov (normalisation N2 of dontcare.json): the decoder keeps the children in file order, except that
+\* a trak that arrives after other boxes is moved up behind the last earlier trak - unless that trak is the very
+\* first child (MoovBox.AddChild uses index 0 as "no earlier trak"). Every arrangement of up to MaxOrder distinct
+\* children; "trak0" is a second, distinguishable trak (empty).
+OrderKids == {"mvhd", "trak", "trak0", "mvex", "udta", "free", "pssh"}
+MaxOrder == 5
+RECURSIVE Arrangements(_, _)
+Arrangements(S, n) == IF n = 0 THEN {<<>>} ELSE {<<>>} \cup UNION {{<<k>> \o a : a \in Arrangements(S \ {k}, n - 1)} : k \in S}
+MoovOrdersFrom(k) == {o \in {<<k>> \o a : a \in Arrangements(OrderKids \ {k}, MaxOrder - 1)} : Len(o) >= 2 /\ \E i \in 1 .. Len(o) : o[i] \in {"trak", "trak0"}}
+IsTrak(k) == k \in {"trak", "trak0"}
+LastTrak(acc) == IF \E i \in 1 .. Len(acc) : IsTrak(acc[i]) THEN CHOOSE i \in 1 .. Len(acc) : IsTrak(acc[i]) /\ \A j \in (i + 1) .. Len(acc) : ~IsTrak(acc[j]) ELSE 0
+RECURSIVE NormOrder(_, _)
+NormOrder(acc, rest) == IF rest = <<>> THEN acc
+                        ELSE LET k == Head(rest) l == LastTrak(acc) IN
+                             IF IsTrak(k) /\ l > 1 /\ l # Len(acc)
+                             THEN NormOrder(SubSeq(acc, 1, l) \o <<k>> \o SubSeq(acc, l + 1, Len(acc)), Tail(rest))
+                             ELSE NormOrder(Append(acc, k), Tail(rest))
+KidBox(k, hdr) == BoxBytes(IF k = "trak0" THEN "trak" ELSE k, [ver |-> 0, flags |-> 0, cnt |-> IF k = "trak0" THEN 0 ELSE 1, pick |-> <<0, "none">>, hdr |-> hdr, rb |-> 0, rl |-> 0])
+RECURSIVE CatKids(_, _)
+CatKids(o, acc) == IF o = <<>> THEN acc
+                   ELSE LET kb == KidBox(Head(o), "s32")
+                            ty == IF Head(o) = "trak0" THEN "trak" ELSE Head(o) IN
+                        CatKids(Tail(o), [b |-> acc.b \o kb.b, m |-> acc.m \o kb.m,
+                                          f |-> acc.f \o [x \in 1 .. Len(kb.f) |-> [n |-> ty \o "." \o kb.f[x].n, t |-> kb.f[x].t, i |-> 0, o |-> kb.f[x].o + Len(acc.b) + 8, w |-> kb.f[x].w]]])
+OrderBox(o) == LET c == CatKids(o, [b |-> <<>>, m |-> <<>>, f |-> <<>>]) IN
+               [b |-> BE(8 + Len(c.b), 4) \o TypeCode("moov") \o c.b, m |-> Zeros(8) \o c.m, f |-> c.f]
 AllFlags(S) == LET RECURSIVE Sum(_) Sum(T) == IF T = {} THEN 0 ELSE LET x == CHOOSE y \in T : TRUE IN x + Sum(T \ {x}) IN Sum(S)
 Instances(b) == LET lay == Layout(b) IN
-    UNION {{[box |-> b, ver |-> v, flags |-> fl, cnt |-> c, pick |-> <<0, "none">>, hdr |-> h, wrap |-> w] : h \in {"s32", "s64"}, w \in {"none", "parent", "sibling"}} :
+    UNION {{[box |-> b, ver |-> v, flags |-> fl, cnt |-> c, pick |-> <<0, "none">>, hdr |-> h, wrap |-> w, ord |-> <<>>] : h \in {"s32", "s64"}, w \in {"none", "parent", "sibling"}} :
            v \in lay.vers, fl \in SubsetSums(lay.flagbits), c \in Counts} \cup
-    UNION {{[box |-> b, ver |-> v, flags |-> fl, cnt |-> c, pick |-> <<i, kd>>, hdr |-> "s32", wrap |-> "none"] : i \in 1 .. NFields(b, v, fl, c), kd \in Kinds} :
+    UNION {{[box |-> b, ver |-> v, flags |-> fl, cnt |-> c, pick |-> <<i, kd>>, hdr |-> "s32", wrap |-> "none", ord |-> <<>>] : i \in 1 .. NFields(b, v, fl, c), kd \in Kinds} :
            v \in lay.vers, fl \in {0, AllFlags(lay.flagbits)} \cup (IF SingleFlagPicks THEN lay.flagbits ELSE {}), c \in PickCounts}
 
 \* the byte string given to the decoders, and the canonical byte string an encoder must give back:
@@ -499,15 +525,19 @@ Wrapped(i, r) == CASE i.wrap = "none" -> r
                    [] i.wrap = "parent" -> [b |-> BE(8 + Len(r.b), 4) \o TypeCode(Parent(i.box)) \o r.b, m |-> Zeros(8) \o r.m, f |-> r.f]
                    [] i.wrap = "sibling" -> [b |-> BE(18 + Len(r.b), 4) \o TypeCode(Parent(i.box)) \o r.b \o FreeSibling,
                                              m |-> Zeros(8) \o r.m \o Zeros(10), f |-> r.f]
-InputOf(i) == Wrapped(i, BoxBytes(i.box, EnvOf(i)))
-ExpectOf(i) == Wrapped(i, BoxBytes(i.box, [EnvOf(i) EXCEPT !.hdr = IF Layout(i.box).type = "mdat" THEN i.hdr ELSE "s32"]))
+InputOf(i) == IF i.wrap = "order" THEN OrderBox(i.ord) ELSE Wrapped(i, BoxBytes(i.box, EnvOf(i)))
+ExpectOf(i) == IF i.wrap = "order" THEN OrderBox(NormOrder(<<>>, i.ord)) ELSE Wrapped(i, BoxBytes(i.box, [EnvOf(i) EXCEPT !.hdr = IF Layout(i.box).type = "mdat" THEN i.hdr ELSE "s32"]))
 
 VARIABLES inst, phase
 vars == <<inst, phase>>
-Init == /\ \E b \in Boxes : inst = [box |-> b, ver |-> 0, flags |-> 0, cnt |-> 0, pick |-> <<0, "none">>, hdr |-> "s32", wrap |-> "none"]
+Init == /\ \E b \in Boxes : inst = [box |-> b, ver |-> 0, flags |-> 0, cnt |-> 0, pick |-> <<0, "none">>, hdr |-> "s32", wrap |-> "none", ord |-> <<>>]
         /\ phase = "box"
 Choose == phase = "box" /\ inst' \in Instances(inst.box) /\ phase' = "bytes"
-Next == Choose
+\* the order family of moov in two steps (first child, then the rest), so that TLC's workers share the work
+ChooseHead == /\ phase = "box" /\ inst.box = "moov" /\ phase' = "ordhead"
+              /\ \E k \in OrderKids : inst' = [inst EXCEPT !.cnt = 1, !.wrap = "order", !.ord = <<k>>]
+ChooseOrder == phase = "ordhead" /\ phase' = "bytes" /\ \E o \in MoovOrdersFrom(inst.ord[1]) : inst' = [inst EXCEPT !.ord = o]
+Next == Choose \/ ChooseHead \/ ChooseOrder
 Spec == Init /\ [][Next]_vars
 
 \* design checks on the oracle: lengths agree, the size field (bytes 1..4 or 9..16) equals the length,
@@ -516,10 +546,11 @@ WellFormed == phase = "bytes" =>
     LET r == InputOf(inst) e == ExpectOf(inst) IN
       /\ Len(e.b) = Len(e.m) /\ Len(r.b) >= 8 /\ Len(r.b) < 65536
       /\ r.b[1] * 16777216 + r.b[2] * 65536 + r.b[3] * 256 + r.b[4] \in {Len(r.b), 1}
-      /\ (inst.hdr = "s32" => (Len(r.b) = Len(e.b) /\ \A k \in 1 .. Len(r.b) : r.b[k] # e.b[k] => e.m[k] = 255))
+      /\ (inst.hdr = "s32" /\ inst.wrap # "order" => (Len(r.b) = Len(e.b) /\ \A k \in 1 .. Len(r.b) : r.b[k] # e.b[k] => e.m[k] = 255))
+      /\ (inst.wrap = "order" => Len(r.b) = Len(e.b) /\ (NormOrder(<<>>, inst.ord) = inst.ord => r.b = e.b))
 Export == (DoExport /\ phase = "bytes") =>
     LET r == InputOf(inst) e == ExpectOf(inst) IN
     PrintT(ToJson([layout |-> inst.box, type |-> Layout(inst.box).type, ver |-> inst.ver, flags |-> inst.flags, cnt |-> inst.cnt, pick |-> inst.pick,
-                   hdr |-> inst.hdr, wrap |-> inst.wrap, bytes |-> r.b, expect |-> e.b, mask |-> e.m, fields |-> e.f,
-                   body |-> (IF inst.wrap = "none" THEN 0 ELSE 8) + (IF Layout(inst.box).type = "mdat" /\ inst.hdr = "s64" THEN 16 ELSE 8)]))
+                   hdr |-> inst.hdr, wrap |-> inst.wrap, ord |-> inst.ord, bytes |-> r.b, expect |-> e.b, mask |-> e.m, fields |-> e.f,
+                   body |-> (IF inst.wrap \in {"none", "order"} THEN 0 ELSE 8) + (IF Layout(inst.box).type = "mdat" /\ inst.hdr = "s64" THEN 16 ELSE 8)]))
 =============================================================================
